@@ -20,15 +20,23 @@ CONSTANTS R,            \* runs 1..R exist at the start: 1..R-1 completed (compa
           N,            \* the query asks for the N most recent runs (latest-status = 1)
           Find,         \* TRUE: the query is the lookup of run R by its request id (FindByRequestID): same listing
                         \* order, every file is read until one holds a status of that run
-          Relist, MaxRelist
+          Relist, MaxRelist,
+          WithUpdate    \* TRUE: a manual status update of run R may be issued once the run's process reports a final status
+                        \* (the API refuses it while the status is "running"; while Close compacts the file the socket
+                        \* already answers with the final status).  The update is not coordinated with the compaction:
+                        \* TLC finds the acknowledged update that is lost (open finding F-06h, MC_C06_conc_update.cfg)
 
 Runs == 1..(R + 1)
 Kinds == {"comp", "orig"}
-NoFile == [exists |-> FALSE, st |-> 0]        \* st: 0 = holds no status yet, otherwise the run whose status it holds
+NoFile == [exists |-> FALSE, st |-> 0, upd |-> FALSE]
+\* st: 0 = holds no status yet, otherwise the run whose status it holds; upd: its last status is the manual update
 
 VARIABLES disk, rpc,            \* recorder: "open" | "c_write" | "c_unlink" | "closed" | "open2" | "wrote2"
-          qpc, qfiles, qacc, relists, valid, answer
-vars == <<disk, rpc, qpc, qfiles, qacc, relists, valid, answer>>
+          qpc, qfiles, qacc, relists, valid, answer,
+          upc, ufile, ugone, readUpd   \* the manual update: "idle" | "found" | "opened" | "acked"; the file it chose; that
+                                       \* file was unlinked while the update held it open; what the compaction had read
+vars == <<disk, rpc, qpc, qfiles, qacc, relists, valid, answer, upc, ufile, ugone, readUpd>>
+uvars == <<upc, ufile, ugone, readUpd>>
 
 \* ---- the abstract store: runs that hold a status, newest first
 HasStatus(d, r) == \E k \in Kinds : d[<<r, k>>].exists /\ d[<<r, k>>].st # 0
@@ -46,37 +54,56 @@ Listing(d, r) == IF r = 0 THEN <<>>
                       \o (IF d[<<r, "orig">>].exists THEN << <<r, "orig">> >> ELSE <<>>) \o Listing(d, r - 1)
 
 Init == /\ disk = [f \in Runs \X Kinds |->
-                     IF f[1] < R /\ f[2] = "comp" THEN [exists |-> TRUE, st |-> f[1]]
-                     ELSE IF f[1] = R /\ f[2] = "orig" THEN [exists |-> TRUE, st |-> R] ELSE NoFile]
+                     IF f[1] < R /\ f[2] = "comp" THEN [exists |-> TRUE, st |-> f[1], upd |-> FALSE]
+                     ELSE IF f[1] = R /\ f[2] = "orig" THEN [exists |-> TRUE, st |-> R, upd |-> FALSE] ELSE NoFile]
         /\ rpc = "open" /\ qpc = "idle" /\ qfiles = <<>> /\ qacc = <<>> /\ relists = 0 /\ valid = {} /\ answer = <<>>
+        /\ upc = "idle" /\ ufile = <<R, "orig">> /\ ugone = FALSE /\ readUpd = FALSE
 
 \* ---- the recorder
 Rec(d2, pc2) == /\ disk' = d2 /\ rpc' = pc2
                 /\ valid' = IF qpc = "iter" THEN valid \cup {Abstract(d2)} ELSE valid
                 /\ UNCHANGED <<qpc, qfiles, qacc, relists, answer>>
-CCreate == rpc = "open"     /\ Rec([disk EXCEPT ![<<R, "comp">>] = [exists |-> TRUE, st |-> 0]], "c_write")
-CWrite  == rpc = "c_write"  /\ Rec([disk EXCEPT ![<<R, "comp">>].st = R], "c_unlink")
-CUnlink == rpc = "c_unlink" /\ Rec([disk EXCEPT ![<<R, "orig">>] = NoFile], "closed")
-Open2   == rpc = "closed"   /\ Rec([disk EXCEPT ![<<R + 1, "orig">>] = [exists |-> TRUE, st |-> 0]], "open2")
-Write2  == rpc = "open2"    /\ Rec([disk EXCEPT ![<<R + 1, "orig">>].st = R + 1], "wrote2")
+\* Compact reads the original (ParseFile) and creates the copy; it writes what it read; it removes the original
+CCreate == /\ rpc = "open" /\ Rec([disk EXCEPT ![<<R, "comp">>] = [exists |-> TRUE, st |-> 0, upd |-> FALSE]], "c_write")
+           /\ readUpd' = disk[<<R, "orig">>].upd /\ UNCHANGED <<upc, ufile, ugone>>
+CWrite  == /\ rpc = "c_write" /\ Rec([disk EXCEPT ![<<R, "comp">>].st = R, ![<<R, "comp">>].upd = readUpd], "c_unlink")
+           /\ UNCHANGED uvars
+CUnlink == /\ rpc = "c_unlink" /\ Rec([disk EXCEPT ![<<R, "orig">>] = NoFile], "closed")
+           /\ ugone' = (ugone \/ (upc = "opened" /\ ufile = <<R, "orig">>)) /\ UNCHANGED <<upc, ufile, readUpd>>
+Open2   == rpc = "closed"   /\ Rec([disk EXCEPT ![<<R + 1, "orig">>] = [exists |-> TRUE, st |-> 0, upd |-> FALSE]], "open2") /\ UNCHANGED uvars
+Write2  == rpc = "open2"    /\ Rec([disk EXCEPT ![<<R + 1, "orig">>].st = R + 1], "wrote2") /\ UNCHANGED uvars
+
+\* ---- the manual status update of run R (jsondb.go Update: FindByRequestID, open the file found for append, write)
+FoundFile == IF disk[<<R, "comp">>].exists /\ disk[<<R, "comp">>].st # 0 THEN <<R, "comp">> ELSE <<R, "orig">>
+UFind  == /\ WithUpdate /\ upc = "idle" /\ rpc # "open" /\ HasStatus(disk, R)
+          /\ upc' = "found" /\ ufile' = FoundFile
+          /\ UNCHANGED <<disk, rpc, qpc, qfiles, qacc, relists, valid, answer, ugone, readUpd>>
+\* OpenOrCreateFile: a file that is gone by now is created anew
+UOpen  == /\ upc = "found" /\ upc' = "opened"
+          /\ disk' = IF disk[ufile].exists THEN disk ELSE [disk EXCEPT ![ufile] = [exists |-> TRUE, st |-> 0, upd |-> FALSE]]
+          /\ UNCHANGED <<rpc, qpc, qfiles, qacc, relists, valid, answer, ufile, ugone, readUpd>>
+\* the write goes to the inode that was opened: if the name has been unlinked since, nobody will read it
+UWrite == /\ upc = "opened" /\ upc' = "acked"
+          /\ disk' = IF ugone THEN disk ELSE [disk EXCEPT ![ufile].st = R, ![ufile].upd = TRUE]
+          /\ UNCHANGED <<rpc, qpc, qfiles, qacc, relists, valid, answer, ufile, ugone, readUpd>>
 
 \* ---- the query
 List == /\ qpc = "idle" /\ qpc' = "iter"
         /\ qfiles' = Listing(disk, R + 1) /\ qacc' = <<>> /\ relists' = 0 /\ valid' = {Abstract(disk)}
-        /\ UNCHANGED <<disk, rpc, answer>>
+        /\ UNCHANGED <<disk, rpc, answer>> /\ UNCHANGED uvars
 InAcc(r) == \E i \in DOMAIN qacc : qacc[i] = r
 Return == /\ qpc = "iter" /\ (qfiles = <<>> \/ Len(qacc) >= N)
           /\ qpc' = "done" /\ answer' = qacc
-          /\ UNCHANGED <<disk, rpc, qfiles, qacc, relists, valid>>
+          /\ UNCHANGED <<disk, rpc, qfiles, qacc, relists, valid>> /\ UNCHANGED uvars
 Visit == /\ qpc = "iter" /\ qfiles # <<>> /\ Len(qacc) < N
          /\ LET f == Head(qfiles) IN
             IF ~disk[f].exists /\ Relist /\ relists < MaxRelist
               THEN /\ qfiles' = Listing(disk, R + 1) /\ qacc' = <<>> /\ relists' = relists + 1
               ELSE /\ qfiles' = Tail(qfiles) /\ UNCHANGED relists
                    /\ qacc' = IF disk[f].exists /\ Takes(disk[f].st, Find) /\ ~InAcc(disk[f].st) THEN Append(qacc, disk[f].st) ELSE qacc
-         /\ UNCHANGED <<disk, rpc, qpc, valid, answer>>
+         /\ UNCHANGED <<disk, rpc, qpc, valid, answer>> /\ UNCHANGED uvars
 
-Next == CCreate \/ CWrite \/ CUnlink \/ Open2 \/ Write2 \/ List \/ Visit \/ Return
+Next == CCreate \/ CWrite \/ CUnlink \/ Open2 \/ Write2 \/ List \/ Visit \/ Return \/ UFind \/ UOpen \/ UWrite
 Spec == Init /\ [][Next]_vars
 
 \* the answer is one the store would have given at some moment while the query ran
@@ -84,4 +111,6 @@ C06_QueryLinearizable == qpc = "done" => answer \in valid
 \* in particular the run that is being closed is never missing from it
 C06_ClosingRunIsShown == qpc = "done" => \E i \in DOMAIN answer : answer[i] >= R
 \* (for a lookup the two say the same: the run is found)
+\* an acknowledged manual update is what the lookup returns once the run is closed (does NOT hold: F-06h)
+C06_UpdateIsKept == upc = "acked" /\ rpc \notin {"open", "c_write", "c_unlink"} => disk[FoundFile].upd
 =============================================================================
